@@ -759,7 +759,10 @@ def selftest(ctx: Ctx, pairs: list[tuple[dict, dict]], traces: list[dict]) -> No
     good_ret = [t for t in traces if t["obs"]["outcome"] == "returned" and t["obs"]["calls"] > 0][:3]
     if len(good_rej) < 2 or not good_ret:
         raise MachineryError("self-test: not enough accepted traces")
-    pool = copy.deepcopy(good_rej + good_ret)
+    # a construction fault met through a call-style entry (an output that the fault does not reach included)
+    ill_call = [t for t in traces if t["entry"] != "map" and t["obs"]["outcome"] == "rejected" and t["obs"]["calls"] == 0
+                and (t["label"].startswith("cycle") or t["op"].endswith("_call"))][:2]
+    pool = copy.deepcopy(good_rej + good_ret + ill_call)
     expected = {}
 
     def add(src: dict, **fields) -> None:
@@ -771,10 +774,14 @@ def selftest(ctx: Ctx, pairs: list[tuple[dict, dict]], traces: list[dict]) -> No
     add(good_rej[1], calls=2)
     add(good_rej[0], folder_changed=True)
     add(good_ret[0], outcome="rejected", calls=0)
+    for t in ill_call:      # the ill-formed pipeline answered the call / raised only after a user function had run
+        add(t, outcome="returned", calls=1)
+        add(t, calls=1)
     rej = validate_traces(ctx, "MC_Validity", pool, "selftest", invariants=[], strip=STRIP, count=False,
                           constants=TRACE_CONSTANTS)
     ctx.selftest("trace-corruption(outcome flipped; user call on a rejection; changed folder on a cleanup=False rejection; "
-                 "acceptance turned into rejection): exactly the corrupted copies rejected", rej == expected,
+                 "acceptance turned into rejection; an ill-formed pipeline that answers a call-style request or runs a "
+                 "function before raising): exactly the corrupted copies rejected", rej == expected,
                  f"rejected={rej} expected={expected}")
 
 
